@@ -29,7 +29,7 @@ func init() {
 	})
 	Register(&Rule{
 		ID:    "R-IFACEWORD",
-		Doc:   "the inlined() predicates of json and proto return true for pointers, maps, single-field structs of an inlined type and (json, which supports arrays of any element) one-element arrays of an inlined type: exactly the types whose interface data word holds the value itself",
+		Doc:   "the inlined() predicates of json and proto return true for pointers, maps, single-field structs of an inlined type and (json, which supports arrays of any element, and reaches chan, func and unsafe.Pointer values through marshaling interfaces implemented on such types) one-element arrays of an inlined type, channels, functions and unsafe pointers: exactly the types whose interface data word holds the value itself",
 		Props: []string{"C06", "C03", "C01"},
 		Min:   map[string]int{"C06": 3, "C03": 1, "C01": 3},
 		Run:   runIfaceWord,
@@ -619,7 +619,9 @@ func runIfaceWord(c *core.Ctx) []core.Obligation {
 		props []string
 		want  []int64
 	}{
-		{"json.inlined", []string{"C06", "C01"}, []int64{22, 21, 25, 17}},
+		// json reaches chan, func and unsafe.Pointer values through Marshaler/TextMarshaler
+		// implementations on such types: they are pointer-shaped too
+		{"json.inlined", []string{"C06", "C01"}, []int64{22, 21, 25, 17, 18, 19, 26}},
 		{"proto.inlined", []string{"C03"}, []int64{22, 21, 25}},
 	} {
 		fn := c.Lookup(spec.fn)
